@@ -116,6 +116,9 @@ def run(chk):
             chk.note("the known race (F7) is no longer reachable in the model for %s - the exemption is stale" % lock)
         else:
             chk.cov.setdefault("known_shape_reachable_in_model", []).append(lock)
+    # ceremonies that fail after their counter update was accepted, or at a store call that fails
+    for lock in ("mutex", "rwlock"):
+        pairs(chk, "ConcMC_fail_%s.cfg" % lock, "failpairs-" + lock, ("C19.", "Any.Crash"))
     # three concurrent ceremonies: sampled schedules
     n = 20000 if thorough else 1500
     for lock in ("mutex", "rwlock"):
